@@ -100,7 +100,16 @@ pub fn draw_qcfg(max_size_log2: u64) -> QCfg {
         9 => 6,
         10 => 1,
         11 => 4,
-        _ => choose(max_size_log2 + 1),
+        _ => {
+            // Sizes above 1024 cost milliseconds per run (queue memory is zeroed, validated and
+            // filled entry by entry); three quarters of those draws are folded back to 32..512.
+            let l = choose(max_size_log2 + 1);
+            if l > 10 && !flip(1, 4) {
+                l - 6
+            } else {
+                l
+            }
+        }
     }
     .min(max_size_log2);
     QCfg {
